@@ -36,6 +36,8 @@ def rules(ctx):
     C06.c065(ctx)   # the timestamp a scan captures covers exactly the completely inserted batches
     from . import C05
     C05.c055(ctx)   # a GC that drops a live value makes the scan miss it
+    from . import C01
+    C01.c019(ctx)   # after a reopen, mutually unordered overlapping files share a level: the per-level concatenation is then out of order
 
 
 def stage_calls(f, pat):
